@@ -126,6 +126,9 @@ def render(spec, allspecs=None):
         if v == 'badref' and d == spec.get('oidparent'):
             extra = ', %sNoSuchNode' % sym(d)
         lines.append('    %s%s FROM %s' % (root_sym(d), extra, spec.get('spell', {}).get(d, d)))
+    dd = spec.get('defval_dep')
+    if dd and spec.get('oiddefval') and not spec.get('smiv1'):
+        lines.append('    %s FROM %s' % (spec.get('defval_sym') or root_sym(dd), dd))
     lines[-1] += ';'
     lines.append('')
     parent = root_sym(spec['oidparent']) if spec.get('oidparent') else 'enterprises'
@@ -194,6 +197,9 @@ def render(spec, allspecs=None):
         lines.append('')
     if spec.get('oiddefval') and not spec.get('smiv1'):
         tgt = root_sym(imps[0]) if imps and imps[0] != name else 'enterprises'
+        if dd:
+            # the default value is the only use of this import
+            tgt = spec.get('defval_sym') or root_sym(dd)
         lines += ['%sOidObj OBJECT-TYPE' % sym(name), '    SYNTAX OBJECT IDENTIFIER', '    MAX-ACCESS read-write', '    STATUS current',
                   '    DESCRIPTION "an OID-valued object whose default names an imported node"', '    DEFVAL { %s }' % tgt, '    ::= { %s 60 }' % me, '']
     if spec.get('fakeidx'):
@@ -254,7 +260,7 @@ NAME_POOL = ['AAA-MIB', 'BBB-MIB', 'CCC-MIB', 'DDD-MIB', 'EEE-MIB', 'FFF-MIB', '
 ARC_POOL = [1, 2, 4, 10, 48, 100, 4800, 99999]
 
 
-def gen_modules(rng, n, cycles=True, defects=0.0, compliance=0.3, identity=0.7, smiv1=0.0):
+def gen_modules(rng, n, cycles=True, defects=0.0, compliance=0.3, identity=0.7, smiv1=0.0, oiddefval=0.0):
     """-> dict name -> spec.  Import graph: random, with back edges and self
     imports when `cycles`; OID parents only point to lower-ranked modules."""
     names = NAME_POOL[:n]
@@ -290,8 +296,16 @@ def gen_modules(rng, n, cycles=True, defects=0.0, compliance=0.3, identity=0.7, 
             spec['smiv1'] = True
             spec['identity'] = False
             spec['compliance'] = False
-        if rng.random() < 0.2:
+        if rng.random() < oiddefval:
             spec['oiddefval'] = True
+            r = rng.random()
+            others = [x for x in lower if x not in imports]
+            if r < 0.35:
+                spec['defval_dep'] = 'GONE-MIB'           # a module nobody has
+            elif r < 0.7 and others:
+                spec['defval_dep'] = rng.choice(others)
+                if rng.random() < 0.4:
+                    spec['defval_sym'] = sym(spec['defval_dep']) + 'NoSuchNode'
         if rng.random() < defects:
             spec['variant'] = rng.choice(DEFECTS)
         specs[name] = spec
